@@ -176,3 +176,59 @@ def narrowing_rule(rule, c, functions):
                     rule.violation(key, where,
                                    "a Python integer index is narrowed to `%s` before the range test: 2**32 + k passes as k" % ty,
                                    "int_t", ty)
+
+
+def index_list_wrap_rule(rule, c, functions):
+    """Index lists produced by create_indexlist(D, ..) still hold the caller's negative
+    indices (only their range was checked): every element read `MAT_BUFI(L)[e]` of such a list
+    that is used as an index must sit inside CWRAP(.., D) (or be compared / copied, not
+    used to address)."""
+    from . import cexpr as cx
+    n = 0
+    for fn in functions:
+        if fn not in c.funcs:
+            continue
+        node = c.funcs[fn]
+        t = cx.strip_pp(c.text(node["b"], node["e"]))
+        t = re.sub(r"/\*.*?\*/", "", t, flags=re.S)
+        lists = {}
+        for m in re.finditer(r"\b(\w+)\s*=\s*create_indexlist\s*\(\s*([^,]+),", t):
+            lists[m.group(1)] = m.group(2).strip()
+        for L, D in lists.items():
+            for m in re.finditer(r"MAT_BUFI\(\s*%s\s*\)\s*\[" % re.escape(L), t):
+                n += 1
+                before = t[max(0, m.start() - 40):m.start()]
+                wrapped = re.search(r"CWRAP\s*\(\s*$", before) is not None
+                line = c.line_of(node["b"]) + t[:m.start()].count("\n")
+                # the statement the read sits in
+                s0 = max(t.rfind(";", 0, m.start()), t.rfind("{", 0, m.start()), t.rfind("}", 0, m.start())) + 1
+                s1 = t.find(";", m.start())
+                stmt = " ".join(t[s0:s1].split())
+                key = "%s:%s element used as an index @%s" % (fn, L, stmt[:60])
+                where = "src/C/%s:%s:%d" % (c.name, fn, line)
+                if wrapped:
+                    rule.ok(key, where, "CWRAP(.., %s)" % D)
+                elif re.search(r"OUT_RNG\s*\(\s*$", before) or re.match(r"\s*(if|while)\b", stmt) and "[" not in stmt.split("MAT_BUFI")[0][-3:]:
+                    rule.ok(key, where, "range test / comparison")
+                elif re.fullmatch(r"(\w+)\s*=\s*MAT_BUFI\(\s*%s\s*\)\s*\[[^\]]*\]" % re.escape(L), stmt) and \
+                        _local_always_wrapped(t[s1:], re.fullmatch(r"(\w+)\s*=.*", stmt).group(1)):
+                    rule.ok(key, where, "copied into a local that is only used inside CWRAP(..)")
+                else:
+                    rule.violation(key, where,
+                                   "an element of the index list `%s` is used unwrapped (`%s`): a negative index allowed by create_indexlist(%s, ..) "
+                                   "addresses memory before the array" % (L, stmt[:70], D), "CWRAP(MAT_BUFI(%s)[..], %s)" % (L, D), stmt[:80])
+    return n
+
+
+def _local_always_wrapped(rest, v):
+    """every later use of local v (re-assignments aside) sits inside CWRAP( / OUT_RNG("""
+    for m in re.finditer(r"\b%s\b" % re.escape(v), rest):
+        after = rest[m.end():m.end() + 3].lstrip()
+        if after.startswith("=") and not after.startswith("=="):
+            continue                          # re-assignment
+        before = rest[max(0, m.start() - 12):m.start()]
+        if re.match(r"(<=|>=|<|>|==|!=)", after) or re.search(r"(<=|>=|<|>|==|!=)\s*-?\s*$", before):
+            continue                          # a comparison (inline range test), not an address
+        if not re.search(r"(CWRAP|OUT_RNG)\s*\(\s*$", before):
+            return False
+    return True
